@@ -85,7 +85,7 @@ def _(c):
 
     @c.replay
     def replay(model, ob=None):
-        return {"script": _ENC_SCRIPT % ("encode_varint_py",)}
+        return {"script": _ENC_SCRIPT.replace('getattr(U, "%s")', 'getattr(U, "encode_varint_py")')}
 
 
 @contract("aiokafka.record.util:size_of_varint_py", "C09", mode=MODE)
@@ -97,7 +97,7 @@ def _(c):
 
     @c.replay
     def replay(model, ob=None):
-        return {"script": _SIZE_SCRIPT % ("size_of_varint_py",)}
+        return {"script": _SIZE_SCRIPT.replace('getattr(U, "%s")', 'getattr(U, "size_of_varint_py")')}
 
 
 @contract("aiokafka.record.util:decode_varint_py", "C09", mode=MODE)
@@ -115,7 +115,7 @@ def _(c):
 
     @c.replay
     def replay(model, ob=None):
-        return {"script": _DEC_SCRIPT % ("decode_varint_py",)}
+        return {"script": _DEC_SCRIPT.replace('getattr(U, "%s")', 'getattr(U, "decode_varint_py")')}
 
 
 @contract("aiokafka.record.util:decode_varint_py", "C10", mode=MODE, variant="untrusted")
